@@ -372,12 +372,25 @@ fn language_job(ctx: &Ctx, job: usize, iters: u64) -> Stats {
             let ops2: Vec<&str> = (0..len2).map(|_| *rng.pick(&OPERAND_TEXTS)).collect();
             format!("[{}{}] {} [{}{}]", ops.join(", "), trailing(&mut rng, len), cs, ops2.join(", "), trailing(&mut rng, len2))
         } else {
-            format!("[{}{}] {} {}", ops.join(", "), trailing(&mut rng, len), cs, rng.pick(&consts))
+            // the constant: a corner value, or a power of two (+-1, +2, +len), or a multiple of 2^32 plus a
+            // small number — where a constant narrowed to 8, 16 or 32 bits would look small again
+            let c: u128 = match rng.below(4) {
+                0 | 1 => *rng.pick(&consts),
+                2 => {
+                    let k = *rng.pick(&[4u32, 6, 7, 8, 15, 16, 24, 31, 32, 33, 40, 48, 62]);
+                    ((1u128 << k) + *rng.pick(&[0u128, 1, 2, l, l + 1])).saturating_sub(rng.below(2) as u128)
+                }
+                _ => (1 + rng.below(5) as u128) * (1u128 << *rng.pick(&[8u32, 16, 32, 32, 32, 48])) + rng.below(l as u64 + 2) as u128,
+            };
+            if c >= 256 {
+                st.bump("language_constants_beyond_8_bits");
+            }
+            format!("[{}{}] {} {}", ops.join(", "), trailing(&mut rng, len), cs, c)
         };
         check_text(&mut st, &text);
         // the comparison directly under a quantifier / negation / if (where an evaluator may treat
         // it specially), small constants only
-        if rng.chance(1, 4) && !text.contains("2147483648") && !text.contains("922337203685477580") && !text.contains("1844674407370955161") {
+        if rng.chance(1, 4) && !text.split(|ch: char| !ch.is_ascii_digit()).any(|run| run.len() >= 10) {
             let v = *rng.pick(&["a", "b", "c"]);
             let wrapped = match rng.below(6) {
                 0 => format!("forall {} # {}", v, text),
@@ -493,7 +506,7 @@ pub fn run(ctx: &Ctx) -> (Stats, Spec) {
     let parts = util::par_jobs(16, |job| super::wide::wide_job(ctx, "C05", job, wide_iters));
     st.merge(crate::report::merge_all(parts));
     let spec = Spec {
-        rule: "API: operand lists (exhaustive over all 2-variable functions up to length 3; random with repeats and complementary pairs up to length 5 [quick] / 7 [thorough]) x bounds n in [-3, len+3] plus {i64::MIN+len, i64::MIN+len+1, -2^40, 2^40, i64::MAX-len-1, i64::MAX-len} x {aln, amn, exn}; list-vs-list for all five comparisons, also with both lists given as slices of ONE operand vector (prefixes, prefix and suffix, the same slice twice); long lists of 8-18 [quick] / 8-21 [thorough] operands (literals, small functions, repeats, constants over 6 variables) against the bounds {0, 1, len/2, len-1, len, random} and on either side of a list comparison. Language: `[..] cmp n` and `[..] cmp [..]` with trailing commas, constants {0,1,len-1,len,len+1,2,2^31,2^63-1} exact and {2^63, 2^64-1} 'rejected or exact'. distinct = (kind, operand tables, bound); non-trivial = >= 2 non-constant operands. MANY VARIABLES: the same judgement on environments with 65-200 variables (more than a machine word of them), where operands are random DNFs and results are compared pointwise on 48 sampled assignments per case (biased towards the operands' cubes) and walked for order / reduction.".into(),
+        rule: "API: operand lists (exhaustive over all 2-variable functions up to length 3; random with repeats and complementary pairs up to length 5 [quick] / 7 [thorough]) x bounds n in [-3, len+3] plus {i64::MIN+len, i64::MIN+len+1, -2^40, 2^40, i64::MAX-len-1, i64::MAX-len} x {aln, amn, exn}; list-vs-list for all five comparisons, also with both lists given as slices of ONE operand vector (prefixes, prefix and suffix, the same slice twice); long lists of 8-18 [quick] / 8-21 [thorough] operands (literals, small functions, repeats, constants over 6 variables) against the bounds {0, 1, len/2, len-1, len, random} and on either side of a list comparison. Language: `[..] cmp n` and `[..] cmp [..]` with trailing commas, constants {0,1,len-1,len,len+1,2,2^31,2^63-1}, 2^k (+-1, +2, +len; k in 4..62) and m*2^8 / 2^16 / 2^32 / 2^48 + small exact and {2^63, 2^64-1} 'rejected or exact'. distinct = (kind, operand tables, bound); non-trivial = >= 2 non-constant operands. MANY VARIABLES: the same judgement on environments with 65-200 variables (more than a machine word of them), where operands are random DNFs and results are compared pointwise on 48 sampled assignments per case (biased towards the operands' cubes) and walked for order / reduction.".into(),
         assumptions: vec![
             "bounds are restricted to those for which n +/- (list length) does not overflow i64, as the statement says".into(),
             "for constants >= 2^63 the implementation may reject with an error or must read exactly that number".into(),
